@@ -328,10 +328,10 @@ def mk_blockread(reach):
             CONTENTS[i] = f.read()
 
     def h(si: int, szx: int, plain: bool) -> None:
-        assert 0 <= si < len(SIZES) and 0 <= szx <= 6
+        assert 0 <= si < len(SIZES) and 0 <= szx <= 7
         i = pick(list(range(len(SIZES))), si)
-        sx = pick(list(range(7)), szx)
-        size = 2 ** (sx + 4)
+        sx = pick(list(range(8)), szx)
+        size = 2 ** (min(sx, 6) + 4)      # exponent 7 (the BERT value of RFC 8323) addresses 1024-byte blocks
         body = CONTENTS[i]
         with SimLoop() as loop:
             fs = FileServer(Path(SB.root), LOG, write=False)
@@ -387,5 +387,5 @@ def obligations(tier):
                               concrete={"method": method, "write enabled": write},
                               stubs=["scratch tree under /tmp re-created per path", "os/io interception", "tempfile names from a counter"]))
     obs.append(Obligation("block-reads", mk_blockread, 280 if q else 900, functions=FUNCS,
-                          symbolic={"file size": "index over 13 boundary sizes", "size exponent": "0..6", "first request without Block2": "bool"}))
+                          symbolic={"file size": "index over 13 boundary sizes", "size exponent": "0..7 (7 = BERT value, 1024-byte blocks)", "first request without Block2": "bool"}))
     return obs
